@@ -342,3 +342,75 @@ MM("try-around-loop-wrong-class", "C02.R5", [(F, LOOP, LOOP_IN_TRY.replace("exce
 MM("view-walrus-other-slot", "C02.R3", [(F, V_SET, '        if (cached := self._raw_settings) is None:\n'
                                                   '            cached = self._settings = self.settings_map(index_type="name", pretty=True)\n        return cached\n')])
 MM("terminator-test-removed", "C02.R5", [(F, PEEK, '    while True:\n'), (F, '            fobj.seek(-2, io.SEEK_CUR)\n', '')])
+
+# ---- third batch: positional pairing in a cached view (R3, cardinality classes), bounded User-Agent continuation (R6, length domain)
+UA_LOOP = (
+    '                    while True:\n'
+    '                        x = fobj.read(1)\n'
+    '                        if not x:\n'
+    '                            # end of data before the NUL terminator\n'
+    '                            break\n'
+    '                        if x == b"\\x00":\n'
+    '                            fobj.seek(-1, io.SEEK_CUR)\n'
+    '                            break\n'
+    '                        setting.value += x\n'
+)
+UA_CHUNKED = (
+    '                    while True:\n'
+    '                        chunk = fobj.read(64)\n'
+    '                        if not chunk:\n'
+    '                            break\n'
+    '                        nul = chunk.find(b"\\x00")\n'
+    '                        if nul >= 0:\n'
+    '                            setting.value += chunk[:nul]\n'
+    '                            fobj.seek(nul - len(chunk), io.SEEK_CUR)\n'
+    '                            break\n'
+    '                        setting.value += chunk\n'
+)
+UA_READ_ALL = (
+    '                    rest = fobj.read()\n'
+    '                    extra = rest.split(b"\\x00", 1)[0]\n'
+    '                    setting.value += extra\n'
+    '                    fobj.seek(len(extra) - len(rest), io.SEEK_CUR)\n'
+)
+UA_ACCUMULATOR = (
+    '                    extra = b""\n'
+    '                    while True:\n'
+    '                        x = fobj.read(1)\n'
+    '                        if not x:\n'
+    '                            break\n'
+    '                        if x == b"\\x00":\n'
+    '                            fobj.seek(-1, io.SEEK_CUR)\n'
+    '                            break\n'
+    '                        extra += x\n'
+    '                    if extra:\n'
+    '                        setting.value += extra\n'
+)
+# a constant view assembled by pairing two per-record sequences (same values as settings_map("const"))
+V_RAWI_ZIP_RECORDS = (
+    '        if self._raw_settings_by_index is None:\n'
+    '            values = (\n'
+    '                u16be(s.value) if s.type == SettingsType.TYPE_SHORT else u32be(s.value) if s.type == SettingsType.TYPE_INT else s.value\n'
+    '                for s in self.settings_tuple\n'
+    '            )\n'
+    '            self._raw_settings_by_index = MappingProxyType(OrderedDict(zip(self.setting_enums, values)))\n'
+    '        return self._raw_settings_by_index\n'
+)
+TT("twin-ua-chunked-loop", [(F, UA_LOOP, UA_CHUNKED)])
+TT("twin-ua-read-rest-of-stream", [(F, UA_LOOP, UA_READ_ALL)])
+TT("twin-ua-accumulator-local", [(F, UA_LOOP, UA_ACCUMULATOR)])
+TT("twin-view-zip-per-record-sequences", [(F, V_RAWI, V_RAWI_ZIP_RECORDS)])
+MM("ua-bounded-for-loop", "C02.R6", [(F, UA_LOOP, UA_LOOP.replace("while True:", "for _ in range(0x400):"))])
+MM("ua-single-chunk-split", "C02.R6", [(F, UA_LOOP, UA_READ_ALL.replace("fobj.read()", "fobj.read(512)"))])
+MM("ua-helper-bounded-for-loop", "C02.R6", [(F, ITER_DEF, UA_HELPER.replace("    while True:\n", "    for _ in range(1024):\n") + ITER_DEF), (F, UA, UA_CALL)])
+MM("ua-accumulator-bounded", "C02.R6", [(F, UA_LOOP, UA_ACCUMULATOR.replace("while True:", "for _ in range(256):"))])
+MM("view-map-records-with-name-view", "C02.R3", [(F, V_SETI, (
+    '        if self._settings_by_index is None:\n'
+    '            pairs = map(lambda s, value: (s.index.value, value), self.settings_tuple, self.settings.values())\n'
+    '            self._settings_by_index = MappingProxyType(OrderedDict(pairs))\n'
+    '        return self._settings_by_index\n'))])
+MM("view-zip-name-keys-with-record-values", "C02.R3", [(F, V_RAW, (
+    '        if self._raw_settings is None:\n'
+    '            names = list(self.settings)\n'
+    '            self._raw_settings = MappingProxyType(dict(zip(names, [s.value for s in self.settings_tuple])))\n'
+    '        return self._raw_settings\n'))])
